@@ -2,10 +2,12 @@
 package props
 
 import (
+	"bytes"
 	"fmt"
 	"io"
 	"os"
 	"os/exec"
+	"path/filepath"
 	"runtime/debug"
 	"strings"
 	"time"
@@ -117,6 +119,70 @@ func decorate(it *astisub.Item, k int) *astisub.Item {
 		it.Comments = []string{"comment"}
 	}
 	return it
+}
+
+// altEntryPoints reads a document again through the file-level entry points (OpenFile and Open, codec chosen by the
+// extension in random letter case): they must return what the format's own reader returned
+func altEntryPoints(c *fw.Ctx, ext string, doc []byte, ref *astisub.Subtitles, stlOpts *astisub.STLOptions) string {
+	b := []byte(ext)
+	for i := range b {
+		if c.R.Bool() && b[i] >= 'a' && b[i] <= 'z' {
+			b[i] -= 32
+		}
+	}
+	path := filepath.Join(c.TmpDir(), "alt-entry."+string(b))
+	if err := os.WriteFile(path, doc, 0o644); err != nil {
+		return ""
+	}
+	defer os.Remove(path)
+	want := deepDump(ref)
+	var s1, s2 *astisub.Subtitles
+	var e1, e2 error
+	o := astisub.Options{Filename: path}
+	if stlOpts != nil {
+		o.STL = *stlOpts
+	}
+	if p := guard(func() {
+		if stlOpts == nil {
+			s1, e1 = astisub.OpenFile(path)
+		}
+		s2, e2 = astisub.Open(o)
+	}); p != "" {
+		return "OpenFile/Open panicked on a document its reader accepts: " + p
+	}
+	if stlOpts == nil {
+		if e1 != nil {
+			return fmt.Sprintf("OpenFile(%q) fails (%v) on a document that the format's reader accepts", filepath.Base(path), e1)
+		}
+		if got := deepDump(s1); got != want {
+			return fmt.Sprintf("OpenFile(%q) returns something else than the format's reader on the same bytes: %s", filepath.Base(path), firstDiff(want, got))
+		}
+	}
+	if e2 != nil {
+		return fmt.Sprintf("Open(Options{Filename: %q}) fails (%v) on a document that the format's reader accepts", filepath.Base(path), e2)
+	}
+	if got := deepDump(s2); got != want {
+		return fmt.Sprintf("Open(Options{Filename: %q}) returns something else than the format's reader on the same bytes: %s", filepath.Base(path), firstDiff(want, got))
+	}
+	c.Count("documents_also_read_through_OpenFile_and_Open", 1)
+	return ""
+}
+
+// altWrite writes a list through Subtitles.Write (codec chosen by the extension): the file must hold what the format's
+// own writer produced
+func altWrite(c *fw.Ctx, ext string, sub *astisub.Subtitles, ref []byte) string {
+	path := filepath.Join(c.TmpDir(), "alt-write."+ext)
+	defer os.Remove(path)
+	var err error
+	if p := guard(func() { err = sub.Write(path) }); p != "" || err != nil {
+		return fmt.Sprintf("Subtitles.Write(%q) fails (%v %s) on a list that the format's writer accepts", filepath.Base(path), err, p)
+	}
+	got, _ := os.ReadFile(path)
+	if !bytes.Equal(got, ref) {
+		return fmt.Sprintf("Subtitles.Write(%q) leaves a file that differs from what the format's writer produced: %s", filepath.Base(path), firstDiff(string(ref), string(got)))
+	}
+	c.Count("lists_also_written_through_Write", 1)
+	return ""
 }
 
 // listSize draws a list length: mostly small (0..small), now and then long, now and then right at the sizes where a
